@@ -55,6 +55,12 @@ def _recipe(draw):
     attrs = draw(gen.body_attrs(replace(CFG, attrs=True), n, ncol, p=P_ATTR))   # half_points: integer, x.5 and off-grid sizes
     for k, v in attrs.items():
         sec["body"].setdefault(k, v)
+    if draw(st.integers(0, 9)) < 3:
+        # the body's own page-edge borders (documented RTFBody options; the oracle leaves the top / bottom edge of a page's first /
+        # last row to C07): '' = none on both edges is a legal choice
+        for key in ("border_first", "border_last"):
+            if draw(st.integers(0, 9)) < 7:
+                sec["body"][key] = draw(st.sampled_from(["", "", "single", "double"]))
     return rec
 
 
@@ -82,6 +88,8 @@ def enumerate_cases(tier):
             else:
                 body[name] = [[vals[(i * ncol + j) % len(vals)] for j in range(ncol)] for i in range(n)]
             yield {"kind": "table", "page": {"nrow": 5}, "sections": [{"df": {"cols": cols}, "body": body, "headers": "default"}]}
+            # the same without any page-edge border of the body, on 5 pages
+            yield {"kind": "table", "page": {"nrow": 3}, "sections": [{"df": {"cols": cols}, "body": dict(body, border_first="", border_last=""), "headers": "default"}]}
 
 
 def _menu(name):
